@@ -137,9 +137,20 @@ ForceNoCopy(C) ==
 (***************************************************************************)
 SameStamp(f, g) == f.sz = g.sz /\ f.mt = g.mt
 Kept(C, fs, d) == {n \in DOMAIN C.cf[d] : n \in DOMAIN fs[d] /\ SameStamp(fs[d][n], C.cf[d][n])}
+(* hash migration (rehash.c): the rehash command marks every used position; until sync or scrub has processed a marked
+   stripe, every hash recorded at that position (blocks of files, past hashes, deleted blocks) is one of the previous hash
+   function, afterwards of the new one.  In this specification a hash is the value it stands for, so the function in use is
+   visible only through the mark: info records carry a field rh (TRUE) while they are marked, and the projection of the
+   real content file turns a hash made with the wrong function for its position into a junk value. *)
+IsRh(i) == "rh" \in DOMAIN i /\ i.rh
+Rh(C, p) == p + 1 <= Len(C.info) /\ IsRh(C.info[p + 1])
+HasRh(C, f) == \E i \in 1..Len(f.bl) : Rh(C, f.bl[i].pos)
+RehashMarked(C) == [C EXCEPT !.info = [q \in 1..Len(C.info) |-> IF C.info[q].p THEN [rh |-> TRUE] @@ C.info[q] ELSE C.info[q]]]
+RehashInProgress(C) == \E q \in 1..Len(C.info) : IsRh(C.info[q])
 FullInvalid(f) == Len(f.bl) > 0 /\ \A i \in 1..Len(f.bl) : f.bl[i].st \in {"CHG", "REP"}
 FullHashed(f) == Len(f.bl) > 0 /\ \A i \in 1..Len(f.bl) : f.bl[i].st \in {"BLK", "REP"}
-Realloc(C, fs, d) == {n \in Kept(C, fs, d) : FullInvalid(C.cf[d][n])}
+\* "stable": no block at a position still waiting for the hash migration (scan.c:426, 472)
+Realloc(C, fs, d) == {n \in Kept(C, fs, d) : FullInvalid(C.cf[d][n]) /\ ~HasRh(C, C.cf[d][n])}
 Stay(C, fs, d) == Kept(C, fs, d) \ Realloc(C, fs, d)
 Gone(C, fs, d) == DOMAIN C.cf[d] \ Kept(C, fs, d)              \* removed or changed
 Fresh(C, fs, d) == DOMAIN fs[d] \ Kept(C, fs, d)               \* added or changed
@@ -162,7 +173,7 @@ CopySources(C, fs, d, n) ==
         \* disks are scanned one after the other in configuration order (--test-skip-multi-scan in the conformance
         \* runs): a record replaced on an earlier disk is already gone, one on a later disk is still there
         /\ ~(DiskIdx(e) < DiskIdx(d) /\ m \in Changed(C, fs, e))
-        /\ FullHashed(C.cf[e][m])}
+        /\ FullHashed(C.cf[e][m]) /\ ~HasRh(C, C.cf[e][m])}
 
 (* removal rule for the hash of a block that becomes DELETED (scan.c:346-388) *)
 DelHash(b, keep_past) == CASE b.st = "BLK" -> b.h
@@ -206,7 +217,8 @@ ScanDisk(C, fs, d, srcs, keep_past) ==
         blk(k, i) == LET b == preT[k][i]
                          p == posof(k, i)
                          oh == FreedHash(C, fs, d, p, keep_past)
-                     IN IF b.st = "REP" THEN [pos |-> p, st |-> "REP", h |-> b.h]
+                     \* a copied hash is kept only at a position that is not waiting for the hash migration (scan.c:259)
+                     IN IF b.st = "REP" /\ ~Rh(C, p) THEN [pos |-> p, st |-> "REP", h |-> b.h]
                         ELSE [pos |-> p, st |-> "CHG", h |-> IF oh = "NONE" THEN "ZERO" ELSE oh]
         rec(k) == LET n == ins[k]
                       base == IF n \in Realloc(C, fs, d) THEN [sz |-> C.cf[d][n].sz, mt |-> C.cf[d][n].mt]
@@ -591,25 +603,27 @@ CheckRangeX(C0, fs, par, present, rng, ext) ==
 (* fix works through the stripes in order and the search for a block in other files reads those files at that
    moment: blocks of candidate files that were repaired at a lower position are already good.  Second pass with
    the repairs of the first one (chains longer than that are not modelled). *)
-FsAfter(C, fs, R, rng, p) ==
+FsAfter(C, fs, R, rng, p, act) ==
     [d \in D |-> [n \in DOMAIN fs[d] |->
-        IF n \notin DOMAIN C.cf[d] THEN fs[d][n]
+        IF n \notin DOMAIN C.cf[d] \/ n \notin act[d] THEN fs[d][n]
         ELSE [fs[d][n] EXCEPT !.b = [i \in 1..Len(fs[d][n].b) |->
                  IF i <= Len(C.cf[d][n].bl)
                  THEN LET q == C.cf[d][n].bl[i].pos
                       IN IF q < p /\ q \in rng /\ R[q].ok /\ d \in R[q].bad /\ d \notin R[q].ood
                          THEN Written(R[q].buf[d], BlkLen(C.cf[d][n].sz, i)) ELSE fs[d][n].b[i]
                  ELSE fs[d][n].b[i]]]]]
-FixRangeStripes(C0, fs, par, present, rng, ext) ==
+FixRangeStripesA(C0, fs, par, present, rng, ext, act) ==
     LET C == WithIndex(C0)
         R1 == CheckRangeX(C0, fs, par, present, rng, ext)
         need == {p \in rng : p < AllocatedMax(C) /\ ~R1[p].ok}
     IN Eager([p \in 0..(AllocatedMax(C) - 1) |->
               IF p \in need
               THEN CheckStripeX(C, fs, par, p, present,
-                                [ext EXCEPT !.stamp = @ \cup {FsAfter(C0, fs, R1, rng, p)[x[1]][x[2]] :
+                                [ext EXCEPT !.stamp = @ \cup {FsAfter(C0, fs, R1, rng, p, act)[x[1]][x[2]] :
                                                                  x \in UNION {{<<e, m>> : m \in DOMAIN fs[e]} : e \in D}}])
               ELSE R1[p]])
+FixRangeStripes(C0, fs, par, present, rng, ext) ==
+    FixRangeStripesA(C0, fs, par, present, rng, ext, [d \in D |-> DOMAIN C0.cf[d]])
 CheckRange(C0, fs, par, present, rng) == CheckRangeX(C0, fs, par, present, rng, NoExt)
 CheckAll(C0, fs, par, present) == CheckRange(C0, fs, par, present, 0..(AllocatedMax(C0) - 1))
 
@@ -654,19 +668,62 @@ FixView(C, fs, sel) ==
         IN Eager([n \in (DOMAIN fs[d] \ {Unrec(m) : m \in back}) \cup back |-> IF n \in back THEN fs[d][Unrec(n)] ELSE fs[d][n]])])
 
 AnyMt == <<0 - 1, 0>>      \* time stamp left by the kernel after a write that is not followed by the restore of the recorded one
-FixRangeX(C, fs0, par, present, sel, rg, ext) ==
-    LET fs == FixView(C, fs0, sel)
+
+(***************************************************************************)
+(* Filters of check and fix (snapraid.c:600-650, state_filter state.c:4108,*)
+(* block_is_enabled check.c:797).                                          *)
+(*   f = [disks   : data disks named by -d ({} = option not given),        *)
+(*        plevels : parity levels named by -d,                             *)
+(*        usenames, names : -f given / recorded names its patterns match,  *)
+(*        missing : -m,   exists : recorded names that lstat finds,        *)
+(*        bad     : "no", "file" (-e) or "block" (-b)]                     *)
+(* A recorded file is excluded when any of the given filters rejects it;   *)
+(* -e/-b keep the files that have a block in a stripe marked bad and write *)
+(* only to files whose size and time stamp are the recorded ones           *)
+(* (syncedonly).  Parity levels: with -d only the named ones are written,  *)
+(* with -f or -m none, otherwise all.                                      *)
+(***************************************************************************)
+InfoBad(C, p) == p + 1 <= Len(C.info) /\ C.info[p + 1].p /\ C.info[p + 1].bad
+HasBadBlock(C, d, n) == \E i \in 1..Len(C.cf[d][n].bl) : InfoBad(C, C.cf[d][n].bl[i].pos)
+NoFilter == [disks |-> {}, plevels |-> {}, usenames |-> FALSE, names |-> [d \in D |-> {}], missing |-> FALSE,
+             exists |-> [d \in D |-> {}], bad |-> "no"]
+FilterOf(C, f) ==
+    [ex |-> Eager([d \in D |-> {n \in DOMAIN C.cf[d] :
+                \/ (f.disks # {} \/ f.plevels # {}) /\ d \notin f.disks
+                \/ f.usenames /\ n \notin f.names[d]
+                \/ f.missing /\ n \in f.exists[d]
+                \/ f.bad # "no" /\ ~HasBadBlock(C, d, n)}]),
+     pex |-> IF f.disks # {} \/ f.plevels # {} THEN Levels \ f.plevels
+             ELSE IF f.missing \/ f.usenames THEN Levels ELSE {},
+     bad |-> f.bad, synced |-> f.bad # "no"]
+FilterOfSel(C, sel) == [ex |-> [d \in D |-> DOMAIN C.cf[d] \ sel[d]], pex |-> {}, bad |-> "no", synced |-> FALSE]
+(* block_is_enabled: the stripes that check and fix process at all *)
+FilterEnabled(C, flt, p) ==
+    IF flt.bad = "block" THEN InfoBad(C, p)
+    ELSE \/ flt.bad = "file" /\ InfoBad(C, p)
+         \/ flt.bad = "no" /\ Levels \ flt.pex # {}
+         \/ \E d \in D : LET b == BlockAt(C, d, p) IN HasFile(b) /\ b.n \notin flt.ex[d]
+
+FixRangeF(C, fs0, par, present, flt, rg, ext) ==
+    LET sel == [d \in D |-> DOMAIN C.cf[d] \ flt.ex[d]]
+        fs == FixView(C, fs0, sel)
         bm == AllocatedMax(C)
-        rng == RangeOf(rg, bm)
-        R == FixRangeStripes(C, fs, par, present, rng, ext)
+        CI == WithIndex(C)
+        rng == {p \in RangeOf(rg, bm) : FilterEnabled(CI, flt, p)}
+        \* FILE_IS_UNSYNCED (check.c:1120): size or time stamp differ from the recorded ones when the file is first
+        \* opened; a file that fix has just created always differs.  With -e/-b such files are read but never written
+        unsyncedF(d, n) == n \notin DOMAIN fs[d] \/ fs[d][n].sz # C.cf[d][n].sz \/ fs[d][n].mt # C.cf[d][n].mt
+        actset == Eager([d \in D |-> {n \in sel[d] : ~(flt.synced /\ unsyncedF(d, n))}])
+        R == FixRangeStripesA(C, fs, par, present, rng, ext, actset)
         fo == Eager([d \in D |-> Eager([n \in DOMAIN C.cf[d] |-> FileOutcome(C, fs, R, d, n, rng)])])
-        isel(d, n) == n \in sel[d]
+        isel(d, n) == n \in actset[d]
         allf == UNION {{<<d, n>> : n \in DOMAIN C.cf[d]} : d \in D}
         unrec == {x \in allf : isel(x[1], x[2]) /\ fo[x[1]][x[2]].damaged /\ fo[x[1]][x[2]].finished}
-        empty0 == {x \in allf : isel(x[1], x[2]) /\ C.cf[x[1]][x[2]].sz = 0 /\ (x[2] \notin DOMAIN fs[x[1]] \/ fs[x[1]][x[2]].sz # 0)}
+        empty0 == {x \in allf : x[2] \in sel[x[1]] /\ C.cf[x[1]][x[2]].sz = 0 /\ (x[2] \notin DOMAIN fs[x[1]] \/ fs[x[1]][x[2]].sz # 0)}
         recov == {x \in allf : isel(x[1], x[2]) /\ fo[x[1]][x[2]].fixed /\ fo[x[1]][x[2]].finished} \cup empty0
-        \* files that fix had to create and could not finish are removed again (check.c:1860-1885)
-        dropped == {x \in allf : isel(x[1], x[2]) /\ fo[x[1]][x[2]].created /\ ~fo[x[1]][x[2]].finished}
+        \* files that fix had to create and could not finish are removed again (check.c:1860-1885); this includes
+        \* the files created and then left alone because of -e/-b
+        dropped == {x \in allf : x[2] \in sel[x[1]] /\ fo[x[1]][x[2]].created /\ ~(fo[x[1]][x[2]].finished /\ isel(x[1], x[2]))}
         \* files written in part (some blocks in the range) but not finished keep their name
         partial == {x \in allf : isel(x[1], x[2]) /\ fo[x[1]][x[2]].bad /\ ~fo[x[1]][x[2]].finished /\ ~fo[x[1]][x[2]].created}
         names(d) == (((DOMAIN fs[d] \ {n \in DOMAIN C.cf[d] : <<d, n>> \in unrec}) \cup {n \in DOMAIN C.cf[d] : <<d, n>> \in recov})
@@ -687,13 +744,17 @@ FixRangeX(C, fs0, par, present, sel, rg, ext) ==
                     ELSE IF n \in DOMAIN C.cf[d] /\ isel(d, n) /\ fo[d][n].larger /\ fo[d][n].touched
                          THEN [b |-> fo[d][n].b, mt |-> AnyMt, sz |-> C.cf[d][n].sz]
                     ELSE fs[d][n]]]
-        pfix == {x \in rng \X Levels : R[x[1]].ok /\ (x[2] \in R[x[1]].perr \/ x[2] \in R[x[1]].lost)}
+        pfix == {x \in rng \X (Levels \ flt.pex) : R[x[1]].ok /\ (x[2] \in R[x[1]].perr \/ x[2] \in R[x[1]].lost)}
         par0 == Resize(par, bm)
-        \* parity files are grown to the allocated size first and cut back to the part that is valid
-        \* (present before, or written by this run) at the end (check.c:2073, parity_truncate)
-        plen(l) == IF Len(par[l]) >= bm THEN bm ELSE Max({Len(par[l])} \cup {x[1] + 1 : x \in {y \in pfix : y[2] = l}})
-        par1 == [l \in Levels |-> [q \in 1..plen(l) |-> IF <<q - 1, l>> \in pfix THEN [k |-> "V", w |-> R[q - 1].pv] ELSE par0[l][q]]]
-        derr == {x \in rng \X D : x[2] \in R[x[1]].bad} \cup {y \in SizeErrors(C, fs) : y[1] \in rng}
+        \* parity files that may be written are grown to the allocated size first and cut back to the part that is
+        \* valid (present before, or written by this run) at the end (check.c:2073, parity_truncate); parity files
+        \* excluded by the filters are only read
+        plen(l) == IF l \in flt.pex THEN Len(par[l])
+                   ELSE IF Len(par[l]) >= bm THEN bm ELSE Max({Len(par[l])} \cup {x[1] + 1 : x \in {y \in pfix : y[2] = l}})
+        par1 == [l \in Levels |-> [q \in 1..plen(l) |-> IF <<q - 1, l>> \in pfix THEN [k |-> "V", w |-> R[q - 1].pv]
+                                                          ELSE IF l \in flt.pex THEN par[l][q] ELSE par0[l][q]]]
+        derr == {x \in rng \X D : x[2] \in R[x[1]].bad}
+                \cup {y \in SizeErrors(C, fs) : y[1] \in rng /\ BlockAt(CI, y[2], y[1]).n \in actset[y[2]]}
         nerr == Cardinality(derr) + Cardinality({x \in rng \X Levels : x[2] \in R[x[1]].perr \cup R[x[1]].rderr})
         nunrec == Cardinality({p \in rng : ~R[p].ok \/ R[p].ood # {}})
         beyond == "bstart" \in DOMAIN rg /\ rg.bstart > bm          \* refused: start beyond the end of the array
@@ -702,6 +763,8 @@ FixRangeX(C, fs0, par, present, sel, rg, ext) ==
        [fs |-> fs1, par |-> par1, R |-> R,
         out |-> [exit |-> IF nunrec # 0 THEN "unrecoverable" ELSE IF nerr = 0 /\ recov = {} /\ pfix = {} THEN "ok" ELSE "recovered",
                  derr |-> derr, unrec |-> unrec, recovered |-> recov, pfix |-> pfix, nunrec |-> nunrec]]
+
+FixRangeX(C, fs0, par, present, sel, rg, ext) == FixRangeF(C, fs0, par, present, FilterOfSel(C, sel), rg, ext)
 
 FixRange(C, fs0, par, present, sel, rg) == FixRangeX(C, fs0, par, present, sel, rg, NoExt)
 FixResult(C, fs0, par, present, sel) == FixRange(C, fs0, par, present, sel, <<>>)
